@@ -3,7 +3,8 @@
 // bound: an index with the English analyser and three documents a, b, c with one text field; the text of a
 //        and of b each ranges over 6 short texts from a 4-word vocabulary (repeated words included) or is
 //        absent, c is fixed; every (previous, final) pair for a is reached by an in-place update
-//        (VSetMetadata), by delete + re-add, a is deleted for good, and a is updated and then deleted; b is updated once before a's history
+//        (VSetMetadata), by delete + re-add, a is deleted for good, a is updated and then deleted, and a's text is overwritten by a number (the
+//        document leaves the text corpus); b is updated once before a's history
 //        (so posting lists are not in id order); queries: each of the 4 words and one two-word query,
 //        text-only search (alpha = 0)
 // rule: for every history the ids and BM25 scores returned must equal (1e-9) those of an index that was built
@@ -75,9 +76,12 @@ func TestGovcBounded(t *testing.T) {
 	n := 0
 	for _, prev := range texts {
 		for _, final := range texts {
-			for _, kind := range []string{"in-place update", "delete and re-add", "delete", "in-place update, then delete"} {
+			for _, kind := range []string{"in-place update", "delete and re-add", "delete", "in-place update, then delete", "in-place update to a number"} {
 				if strings.HasPrefix(kind, "in-place update") && final == "" {
 					continue // VSetMetadata merges: it cannot remove the field
+				}
+				if kind == "in-place update to a number" && final != "apple" {
+					continue // the final text is not used: once per previous text
 				}
 				n++
 				h, f := fmt.Sprintf("h%d", n), fmt.Sprintf("f%d", n)
@@ -102,6 +106,8 @@ func TestGovcBounded(t *testing.T) {
 					if err = e.VDelete(h, "a"); err == nil {
 						err = e.VAdd(h, "a", []float32{1, 0}, meta(final))
 					}
+				case "in-place update to a number":
+					err = e.VSetMetadata(h, "a", map[string]any{"content": 42})
 				case "delete":
 					err = e.VDelete(h, "a")
 					aLive = false
@@ -116,7 +122,9 @@ func TestGovcBounded(t *testing.T) {
 					return
 				}
 				// the same documents, built directly
-				if aLive {
+				if kind == "in-place update to a number" {
+					e.VAdd(f, "a", []float32{1, 0}, map[string]any{"content": 42, "other": "x"})
+				} else if aLive {
 					e.VAdd(f, "a", []float32{1, 0}, meta(final))
 				}
 				e.VAdd(f, "b", []float32{0, 1}, meta(bFinal))
